@@ -364,6 +364,12 @@ def run(ctx, shard):
                 C = PO.from_full_matrix(m)
                 ctx.check(np.array_equal(C.F2, f), 'roundtrip/full_matrix', 'from_full_matrix(full_matrix) is not the identity',
                           {'F2': f, 'back': C.F2})
+                # a dense matrix that was *computed* carries rounding noise (not Hermiticity-preserving); from_full_matrix accepts 1e-7
+                for eps in (1e-15, 1e-12, 1e-9):
+                    noise = rng.normal(size=m.shape) + 1j * rng.normal(size=m.shape)
+                    C = PO.from_full_matrix(m + eps * noise)
+                    ctx.check(np.array_equal(C.F2, f), 'roundtrip/full_matrix-with-rounding-noise',
+                              'from_full_matrix(full_matrix + rounding noise) is not the identity', {'F2': f, 'back': C.F2, 'eps': eps})
                 D = PO.from_np_list([rp.S[ch] for ch in p[1]], 1j**p[0])
                 ctx.check(np.array_equal(D.F2, f), 'roundtrip/np_list', 'from_np_list wrong', {'F2': f, 'back': D.F2})
             idx = P.pauli_F2_to_index(f, with_sign=True)
